@@ -53,7 +53,7 @@ def _run_chunk(args):
 
 
 def replay_walks(v, g, walks, exe, obj, to_cmd, init_cmd, tag, sig_of=None, chunk=250, timeout=300,
-                 check_fin=True, drv_env=None, jobs=None):
+                 check_fin=True, drv_env=None, jobs=None, prelude=None):
     """Replays walks (lists of edge indices) of graph g through the driver, chunks in parallel.
     to_cmd(act_in) -> 'action args' ; init_cmd(init_act) -> 'init args'.
     Records violations on v.  Returns number of walks validated."""
@@ -80,9 +80,15 @@ def replay_walks(v, g, walks, exe, obj, to_cmd, init_cmd, tag, sig_of=None, chun
                     w = walks[wid]
                     s0 = edges[w[0]][0]
                     f.write("W %d\n" % wid)
-                    f.write("%s %s\n" % (obj, init_cmd(g["init_acts"][str(s0)])))
-                    for ei in w:
-                        f.write("%s %s\n" % (obj, to_cmd(act_in(edges[ei][2]))))
+                    if prelude is not None:
+                        # drivers with a free-form command language (drv_proto): no object prefix
+                        f.write(prelude + "\n")
+                        for ei in w:
+                            f.write(to_cmd(act_in(edges[ei][2])) + "\n")
+                    else:
+                        f.write("%s %s\n" % (obj, init_cmd(g["init_acts"][str(s0)])))
+                        for ei in w:
+                            f.write("%s %s\n" % (obj, to_cmd(act_in(edges[ei][2]))))
                     f.write("E\n")
             jobsargs.append((exe, cmdfile, timeout, drv_env))
         with ThreadPoolExecutor(max_workers=jobs or min(NCPU, 16)) as ex:
